@@ -293,9 +293,13 @@ class ModuleCanon(object):
 
     def run(self):
         self.subst_constants()
+        inlined = False
         for _ in range(3):
             if not self.inline_helpers():
                 break
+            inlined = True
+        if inlined:
+            self.drop_inlined_helpers()
         self.inline_temps()
         self.ifexp_to_if()
         self.lock_blocks()
@@ -378,8 +382,8 @@ class ModuleCanon(object):
         out = {}
         top = set(self.base["top"])
         for q, fn, cls, clsnode in self.functions():
-            if q.count(".") != self.name.count(".") + (2 if cls else 1):
-                continue    # nested defs are not helpers
+            if cls is None and q.count(".") != self.name.count(".") + 1:
+                continue    # nested functions are not helpers (methods of nested classes are)
             if cls is not None:
                 if cls not in self.base["classes"] or fn.name in self.base["classes"][cls]:
                     continue
@@ -391,6 +395,38 @@ class ModuleCanon(object):
             if self.inlinable(fn, key):
                 out[key] = fn
         return out
+
+    def drop_inlined_helpers(self):
+        """A new private helper whose every use was replaced by its body is no longer part of the program under analysis."""
+        used = {}
+        for n in ast.walk(self.tree):
+            if isinstance(n, ast.Name) and isinstance(n.ctx, ast.Load):
+                used[n.id] = used.get(n.id, 0) + 1
+            elif isinstance(n, ast.Attribute):
+                used[n.attr] = used.get(n.attr, 0) + 1
+        done = set(h for k, q, h in self.log if k == "H")
+        for key, fn in list(self.new_helpers().items()):
+            name = fn.name
+            if not name.startswith("_") or used.get(name, 0) > 0:
+                continue
+            if not any(h.split(".")[-1] == name for h in done):
+                continue
+
+            def strip(body):
+                for i, st in enumerate(list(body)):
+                    if st is fn:
+                        body.remove(st)
+                        if not body:
+                            body.append(ast.Pass())
+                        return True
+                    if isinstance(st, (ast.ClassDef, ast.FunctionDef, ast.If, ast.Try)):
+                        for fld in ("body", "orelse", "finalbody"):
+                            sub = getattr(st, fld, None)
+                            if isinstance(sub, list) and strip(sub):
+                                return True
+                return False
+            if strip(self.tree.body):
+                self.log.append(("H-drop", self.name + "." + name, name))
 
     def inlinable(self, fn, key):
         if fn.decorator_list or isinstance(fn, ast.AsyncFunctionDef):
